@@ -1008,6 +1008,11 @@ struct TestStage {
     yields: u8,
     sh: Arc<Shared>,
     name: String,
+    /// value reported by max_concurrency() (0 = keep the trait default of 1)
+    conc: u8,
+    /// uneven latencies: item i yields `yields + (7 - i % 8)` times, so later items of a group
+    /// of 8 finish first when the stage really runs them concurrently
+    uneven: bool,
 }
 
 impl PipelineStage<It, It> for TestStage {
@@ -1017,7 +1022,8 @@ impl PipelineStage<It, It> for TestStage {
             if self.hang.contains(&input.0) {
                 std::future::pending::<()>().await;
             }
-            for _ in 0..self.yields {
+            let extra = if self.uneven { 7 - (input.0 % 8) as u8 } else { 0 };
+            for _ in 0..(self.yields.saturating_add(extra)) {
                 tokio::task::yield_now().await;
             }
             if self.fail.contains(&input.0) {
@@ -1029,6 +1035,9 @@ impl PipelineStage<It, It> for TestStage {
     }
     fn name(&self) -> &str {
         &self.name
+    }
+    fn max_concurrency(&self) -> usize {
+        if self.conc == 0 { 1 } else { self.conc as usize }
     }
 }
 
@@ -1080,7 +1089,7 @@ fn run_pipe_single(ctx: &mut Ctx, kind: u8, two: bool, x: u32, fail1: bool, fail
                 let h1: Arc<BTreeSet<u32>> = Arc::new(if hang == 1 { [0u32].into() } else { BTreeSet::new() });
                 let h2: Arc<BTreeSet<u32>> = Arc::new(if hang == 2 { [0u32].into() } else { BTreeSet::new() });
                 let item: It = (0, x as u64);
-                let ts = |sid: u64, slot: usize, fail: &Arc<BTreeSet<u32>>, hang: &Arc<BTreeSet<u32>>| TestStage { sid, slot, fail: fail.clone(), hang: hang.clone(), yields: if short { 0 } else { 1 }, sh: sh.clone(), name: format!("s{sid}") };
+                let ts = |sid: u64, slot: usize, fail: &Arc<BTreeSet<u32>>, hang: &Arc<BTreeSet<u32>>| TestStage { sid, slot, fail: fail.clone(), hang: hang.clone(), yields: if short { 0 } else { 1 }, sh: sh.clone(), name: format!("s{sid}"), conc: 0, uneven: false };
                 if two {
                     // stage 1 varies, stage 2 is the instrumented stage
                     let s2 = ts(1, 1, &f2, &h2);
@@ -1185,7 +1194,9 @@ fn run_pipe_batch(ctx: &mut Ctx, kind: u8, batching: bool, n: u16, yields: u8, f
                         drive(p.process_batch(BatchMapStage::with_batch_support("bb".into(), single, batch), inputs), &sh.progress, scale).await.map(|r| Out::Items(flat(r)))
                     }
                     3 => {
-                        let st = TestStage { sid: 0, slot: 0, fail: fails.clone(), hang: hangs.clone(), yields, sh: sh.clone(), name: "t".into() };
+                        // a stage that declares max_concurrency > 1 and whose items complete out of order: the
+                        // sequence-returning API must still answer in input order
+                        let st = TestStage { sid: 0, slot: 0, fail: fails.clone(), hang: hangs.clone(), yields, sh: sh.clone(), name: "t".into(), conc: 1 + (yields % 5), uneven: hangs.is_empty() };
                         drive(p.process_batch(st, inputs), &sh.progress, scale).await.map(|r| Out::Items(flat(r)))
                     }
                     _ => {
@@ -1277,7 +1288,7 @@ fn run_pipe_stream(ctx: &mut Ctx, stages: u8, buffer: u8, in_cap: u8, threads: u
                 for s in 0..ns {
                     let f = Arc::new(fsets[s].clone());
                     if s % 2 == 0 {
-                        st.push(Box::new(TestStage { sid: s as u64, slot: s * n, fail: f, hang: Arc::new(hsets[s].clone()), yields, sh: sh.clone(), name: format!("t{s}") }));
+                        st.push(Box::new(TestStage { sid: s as u64, slot: s * n, fail: f, hang: Arc::new(hsets[s].clone()), yields, sh: sh.clone(), name: format!("t{s}"), conc: 0, uneven: false }));
                     } else {
                         st.push(Box::new(MapStage::new(format!("m{s}"), map_closure(s as u64, s * n, f, sh.clone()))));
                     }
